@@ -6,10 +6,12 @@
 (*                                                                         *)
 (* The caller's object is abstracted to                                    *)
 (*   layout  "1d" | "2xN" | "Nx2" | "list" | "tuple"                       *)
-(*   dtype   "f64" | "f32" | "i64"       (i64 cannot hold non-finite)      *)
+(*   dtype   "f64" | "f32" | "i64" | "f128" | "obj"                         *)
+(*           (i64 cannot hold non-finite; obj marks a gap with None)       *)
 (*   mem     "C" | "F" | "strided" | "negstride"                           *)
 (*   bad     set of <<channel, position>> holding a non-finite sample      *)
-(*   kind    "nan" | "posinf" | "neginf"                                   *)
+(*   kind    "nan" | "posinf" | "neginf" | "huge" (finite long double      *)
+(*           beyond the float64 range: non-finite only after conversion)   *)
 (* Buffers are modelled by identity: `abuf` is either the caller's buffer  *)
 (* ("caller") or a fresh one ("own").  np.ascontiguousarray returns the    *)
 (* caller's buffer itself exactly when it is already a C-contiguous        *)
@@ -28,9 +30,9 @@ VARIABLES inp, pc, view, abuf, callerBad, analyzerBad
 vars == <<inp, pc, view, abuf, callerBad, analyzerBad>>
 
 Layouts == {"1d", "2xN", "Nx2", "list", "tuple"}
-Dtypes  == {"f64", "f32", "i64"}
+Dtypes  == {"f64", "f32", "i64", "f128", "obj"}      \* f128: np.longdouble; obj: object arrays / lists whose gaps are None
 Mems    == {"C", "F", "strided", "negstride"}
-Kinds   == {"nan", "posinf", "neginf"}
+Kinds   == {"nan", "posinf", "neginf", "huge"}       \* huge: a finite long double beyond the float64 range (non-finite only AFTER the conversion)
 Chans(l) == IF l = "1d" THEN {1} ELSE {1, 2}
 
 Init ==
@@ -38,6 +40,7 @@ Init ==
        \E bad \in SUBSET (Chans(l) \X {1, NLen}) :
           /\ Cardinality(bad) <= 2
           /\ (d = "i64" => bad = {})
+          /\ (k = "huge" => d = "f128")
           /\ (l \in {"list", "tuple"} => m = "C")              \* a python sequence of two arrays has no strides of its own
           /\ (l = "1d" => m \in {"C", "strided", "negstride"})
           /\ inp = [layout |-> l, dtype |-> d, mem |-> m, kind |-> k, bad |-> bad]
